@@ -49,6 +49,7 @@ type Index struct {
 
 type KnownFinding struct {
 	Property string   `json:"property"`
+	Also     []string `json:"also"` // other properties whose checks run the same harness
 	ID       string   `json:"id"`      // vKnown class id
 	Asserts  []string `json:"asserts"` // finding ids (assert id / panic id prefix) this class explains
 	What     string   `json:"what"`
@@ -135,6 +136,47 @@ func (r *RootSpec) tuples(tier string) [][]int {
 // ---------------------------------------------------------------- loading
 
 const rtDecl = `
+import (
+	zzcontext "context"
+	zztime "time"
+)
+
+// Model of cancellable contexts (engine side only; the native build uses the real package).
+type zzCancelCtx struct {
+	parent   zzcontext.Context
+	done     chan struct{}
+	err      error
+	children []*zzCancelCtx
+}
+
+func (c *zzCancelCtx) Deadline() (zztime.Time, bool) { return zztime.Time{}, false }
+func (c *zzCancelCtx) Done() <-chan struct{}         { return c.done }
+func (c *zzCancelCtx) Err() error                    { return c.err }
+func (c *zzCancelCtx) Value(k any) any               { return c.parent.Value(k) }
+func (c *zzCancelCtx) cancel() {
+	if c.err != nil {
+		return
+	}
+	c.err = zzcontext.Canceled
+	close(c.done)
+	for _, ch := range c.children {
+		ch.cancel()
+	}
+}
+func zzWithCancel(parent zzcontext.Context) (zzcontext.Context, zzcontext.CancelFunc) {
+	c := &zzCancelCtx{parent: parent, done: make(chan struct{})}
+	if p, ok := parent.(*zzCancelCtx); ok {
+		if p.err != nil {
+			c.cancel()
+		} else {
+			p.children = append(p.children, c)
+		}
+	} else if parent.Err() != nil {
+		c.cancel()
+	}
+	return c, func() { c.cancel() }
+}
+
 func vByte(n string) byte
 func vUint16(n string) uint16
 func vUint32(n string) uint32
@@ -351,6 +393,11 @@ func runRoot(l *Loaded, spec *RootSpec, args []int, nSamples int) (res *RootResu
 			where := ""
 			if m.curFn != nil {
 				where = fmt.Sprintf(" [in %s: %s @ %s]", m.curFn, m.curIn, m.prog.Fset.Position(m.curIn.Pos()))
+				if m.curSt != nil {
+					for i := len(m.curSt.frames) - 1; i >= 0 && i >= len(m.curSt.frames)-6; i-- {
+						where += " <- " + m.curSt.frames[i].fn.String()
+					}
+				}
 			}
 			res.Err = fmt.Sprintf("engine panic: %v%s", r, where)
 		}
@@ -370,6 +417,7 @@ func runRoot(l *Loaded, spec *RootSpec, args []int, nSamples int) (res *RootResu
 		return
 	}
 	m.initPkgs[hpkg.Pkg.Path()] = true
+	m.hpkg = hpkg
 	st := m.newState()
 	m.tolerant = true
 	m.pushFrame(st, hpkg.Func("init"), nil, nil, nil)
